@@ -51,7 +51,14 @@ def main(argv=None) -> int:
         repo = Repo(args.repo)
         mod = load_rules(prop)
         ctx = Ctx(prop, repo, args.tier)
-        mod.run(ctx)
+        try:
+            mod.run(ctx)
+        except AnalysisError as e:
+            # a rule lost its footing after definite violations had been reported: the violations stand (exit 1); without any, the run is analysis-broken (exit 2)
+            if not [f for f in ctx.findings if not getattr(f, "info", False)]:
+                raise
+            ctx.note(f"analysis stopped early: {e}")
+            print(f"ANALYSIS-INCOMPLETE property={prop}: {e} (violations found before that are reported)")
         if args.replay:
             want = json.loads(Path(args.replay).read_text())
             hits = [f for f in ctx.findings if f.identity == want.get("identity")]
